@@ -581,6 +581,25 @@ func runC17(c *Ctx) {
 		}
 	}
 
+	// a 10-byte prefix whose last byte is above 1 spells a length of 2^64 or more: an error, whatever
+	// its low bits spell and whatever follows it
+	for _, last := range []byte{0x02, 0x03, 0x10, 0x40, 0x7e, 0x7f} {
+		for _, low := range []byte{0x80, 0x85, 0x83} {
+			p := append(append([]byte{low}, bytes.Repeat([]byte{0x80}, 8)...), last)
+			wire := append(append([]byte{}, p...), []byte("hello")...)
+			for _, limit := range []int{1 << 20, 0} {
+				cs := rnCase{codec: "proto", limit: limit, spare: 0, wire: wire, sched: genSched(c, len(wire)), eofWithData: c.Rng.Intn(2) == 0}
+				out := runReadNext(cs)
+				in := fmt.Sprintf("prefix=%x then %q limit=%d", p, "hello", limit)
+				c.Eval("overlong-prefix", in, true)
+				c.Class("overlong-prefix:" + errClass(out.err))
+				if out.panicked || out.err == nil {
+					c.SpecFail("overlong-prefix", in, out.line, "an error", "C17/proto/prefix-overflow-accepted", "a length prefix of 2^64 or more is read as the number its low bits spell")
+				}
+			}
+		}
+	}
+
 	// ---- readAll and growcap (function level)
 	for i := 0; i < c.N(300, 5000); i++ {
 		n := c.Rng.Intn(40)
